@@ -5,11 +5,13 @@ from the CURRENT Rust source.  Companion of tools/rust2lean.py (whose lexer / so
     python3 tools/rust2lean_sm.py [--require GROUP[,GROUP...]] [--stdout] [--list]
 
 Reads the items listed in MACHINES *by name* from the files under $VERIF_REPO (default /repo) and writes
-<verif>/lean/BarterModel/Generated/Machines.lean (namespace BarterModel.Generated.Machines, core Lean only;
-rewritten only when its content changes).  The agreement theorems of lean/BarterModel/Lemmas/KernelsAgree/
-{Sequencer,Drawdown,PositionSM,Connectivity}.lean state that the generated step functions equal the
-hand-written model definitions for ALL states and arguments, so a change of such a method in the Rust source
-breaks a proof obligation.
+<verif>/lean/BarterModel/Generated/Machines.lean (groups GROUPS) and Machines2.lean (groups GROUPS2; it imports the
+first and continues its namespace BarterModel.Generated.Machines; core Lean only; each file is rewritten only when
+its content changes).  The agreement theorems of lean/BarterModel/Lemmas/KernelsAgree/{Sequencer,Drawdown,
+PositionSM,Connectivity}.lean (first file) and {DataSetSM,..}.lean (second file) state that the generated step
+functions equal the hand-written model definitions for ALL states and arguments, so a change of such a method in
+the Rust source breaks a proof obligation.  An item may belong to several groups (`a+b`); it is written to the
+file of the first.
 
 Translation scheme
   fn f(&mut self, a: A) -> R   |->  def S.f (self : S) (a : A) : S x R      (state passing; R = () gives S)
@@ -28,7 +30,16 @@ Accepted Rust subset (delta to tools/rust2lean.py, which covers straight-line De
           fields are dropped and recorded; reading them is rejected), `enum` with unit / tuple / struct variants,
           `enum` restricted to named variants (option variants), identifier newtypes declared `opaque` (-> Nat:
           only stored, cloned, compared), `fn` in `mod x` / `impl<..> S<..>` / `impl<..> Trait<..> for S<..>` with
-          `&self`, `&mut self`, `self`, `mut self`, no receiver; parameters `x: Ty`, `x: &Ty`, `mut x: Ty`
+          `&self`, `&mut self`, `self`, `mut self`, no receiver; parameters `x: Ty`, `x: &Ty`, `mut x: Ty`;
+          `derive_default` / `derive_new`: the `#[derive(.. Default ..)]` / `#[derive(.. Constructor ..)]` attribute of
+          a translated struct, read from the source (-> `S.default`, every field at its type's default / `S.new`,
+          the fields in declaration order); `extern`: a free fn that is NOT translated -- only its signature is
+          read and every definition that calls it (transitively) takes it as an explicit leading parameter;
+          methods with their own type parameters `fn m<K>(&mut self, ..)` (kept as parameters); `enum` with option
+          `rest` (the untranslated variants become the one constructor `Other_`); `opaque` with option `item: enum`;
+          `Self::Name` resolved through `type Name = ..;` of the same trait impl; `f64` as the uninterpreted `F64`;
+          `trait` (non-generic): the record of its `&self` methods with translatable signatures; a method call on a
+          value of a type parameter is a field of the explicit parameter `T_Trait : Trait T`
   stmts   `let x (: Ty)? = e;`  `let (a, b) = e;`  `let Some(x) = e else { ..; return ..; };`  `self.f = e;`
           `self.f.g = e;` `self.f += e;` (also -= *= /=), assignment to a `let mut` local, `return e;`, `e?;`,
           `if c { .. }` / `if c { .. } else { .. }` / `if let Some(x) = e { .. } (else { .. })?` / `match` /
@@ -37,18 +48,34 @@ Accepted Rust subset (delta to tools/rust2lean.py, which covers straight-line De
           translated structs on an assignable place as a whole statement / initialiser / tail (`self.m(a);`
           `let x = self.m(a);` `self.m(a)?;`), `place.take()` as a whole initialiser or `match` scrutinee,
           `place.push(e);`, `let mut v = Vec::new() / Vec::with_capacity(n);` directly followed by `v.push(e);`,
-          `use Enum::*;`, tracing macros `error!/warn!/info!/debug!/trace!(..);` (skipped: they only log)
+          `use Enum::*;`, tracing macros `error!/warn!/info!/debug!/trace!(..);` (skipped: they only log),
+          `let Some(x) = &mut <place> else { ..diverges.. };` (x = the payload, every change of x is written back to
+          the place at once), `place.replace(e);` on an Option place
   exprs   everything of rust2lean.py plus: integer literals, u64/i64 arithmetic and comparisons, `true`/`false`,
           `Ok(e)` `Err(e)` `Some(e)` `None`, `()`, tuples; `E::V { f: e, .. }` / `E::V(e)` / `S { f: e, .. }` / `S(e)`
           / `S`; postfix `?` on Option and on Result (same error type; only as a whole initialiser / statement /
           tail); `b.then_some(e)`, `.clone()`, `.is_some()`, `.is_none()`, `.abs()`, `.is_zero()`,
+          `.is_sign_negative()` (`< 0`), `opt.expect("..")` / `opt.unwrap()` (the `None` arm is `Rust.unreachable`),
+          `opt.as_ref()`, `opt.map(|x| e)`, `opt.is_none_or(|x| c)`, `opt.is_some_and(|x| c)` (closures ONLY there, one
+          plain parameter), `opt.or(e)`, `opt.unwrap_or(e)`, `Decimal::from_f64(x)` (built-in extern parameter),
+          `.checked_mul(e)` / `.checked_add(e)` / `.checked_sub(e)` (never `None`: overflow is not modelled),
+          `a <= b` / `<` / `>` / `>=` on values of a type parameter `T` (explicit parameter `T_ord : Rust.PartialOrd T`),
+          `?` below the top of an expression in an always-evaluated position (taken out in evaluation order),
+          `Decimal::from(<i64>)`, `d.num_seconds()`, `TimeDelta::{days,hours,minutes,seconds,milliseconds}(n)`,
+          `a.max(b)` on TimeDelta, `x.sqrt()` on Decimal (built-in extern parameter `decimal_sqrt`), `a.cmp(&b)` on
+          Decimal with `std::cmp::Ordering`, `Utc::now()` (the explicit parameter `utc_now`, at most one reading per
+          function), `t.add(d)` on DateTime, `.abs()` on i64, `Arc<T>` / `RwLock<T>` as `T` with `Arc::new(e)`,
+          `RwLock::new(e)`, `x.read()`, `let mut g = <place>.write();` (write-back alias), `drop(local);`, a binder arm
+          `x if c =>` in a guarded `match`,
           `.checked_div(e)`, `t.signed_duration_since(u)`, `d.num_milliseconds()`, `Decimal::from(<u64>)`,
           `<u64> as i64`, `&e`, `*e`, `x.0`, `==` / `!=` on type-parameter and opaque values, calls of `&self` /
           by-value methods and associated fns of translated structs, calls of translated free fns;
           `match` on bool / Option (`Some(p)`, `None`) / translated enum (every variant once) with patterns
           binder, `_`, `S { f, g: p, .. }`, `S(p)`, `(p, q)`; and the ORDERED form of `match` -- tuple scrutinee,
           or-patterns `p | q`, guards `if c`, binder-free patterns, last arm an unguarded `_` -- which becomes an
-          if-chain; `unreachable!(..)` / `panic!(..)` become the opaque `Rust.unreachable` (an agreement theorem
+          if-chain; the ordered form WITHOUT guards but with binders / constructor patterns (`(Some(a), Some(b)) =>`,
+          `E::V(x) =>`, `_ =>`) becomes a Lean `match` with the alternatives in source order;
+          `unreachable!(..)` / `panic!(..)` become the opaque `Rust.unreachable` (an agreement theorem
           then only holds if the site is dead code).
 Everything else is REJECTED: exit status 1 and a message naming the function and the construct (loops,
 closures, iterators, `&mut` borrows and `&mut`-returning accessors, indexing, string / float literals, other
@@ -70,6 +97,7 @@ from rust2lean import Reject, blank_comments, match_brace, depth_at, tokenize, L
 VERIF = os.path.dirname(os.path.dirname(os.path.abspath(__file__)))
 REPO = os.environ.get("VERIF_REPO", "/repo")
 OUT = os.path.join(VERIF, "lean", "BarterModel", "Generated", "Machines.lean")
+OUT2 = os.path.join(VERIF, "lean", "BarterModel", "Generated", "Machines2.lean")
 
 SPOT = "barter-data/src/exchange/binance/spot/l2.rs"
 FUT = "barter-data/src/exchange/binance/futures/l2.rs"
@@ -79,6 +107,28 @@ DDMEAN = "barter/src/statistic/metric/drawdown/mean.rs"
 PSN = "barter/src/engine/state/position.rs"
 TRADE = "barter-execution/src/trade.rs"
 CONN = "barter/src/engine/state/connectivity/mod.rs"
+ALGO = "barter/src/statistic/algorithm.rs"
+DSET = "barter/src/statistic/summary/dataset/mod.rs"
+DISP = "barter/src/statistic/summary/dataset/dispersion.rs"
+PNL = "barter/src/statistic/summary/pnl.rs"
+INSTR = "barter/src/statistic/summary/instrument.rs"
+BAL = "barter-execution/src/balance.rs"
+SNAP = "barter-integration/src/snapshot.rs"
+SUMASSET = "barter/src/statistic/summary/asset.rs"
+ASTATE = "barter/src/engine/state/asset/mod.rs"
+IDATA = "barter/src/engine/state/instrument/data.rs"
+BOOKS = "barter-data/src/books/mod.rs"
+BOOKSUB = "barter-data/src/subscription/book.rs"
+MEVENT = "barter-data/src/event.rs"
+RISK = "barter/src/risk/mod.rs"
+RCHECK = "barter/src/risk/check/mod.rs"
+RUTIL = "barter/src/risk/check/util.rs"
+CLOCK = "barter/src/engine/clock.rs"
+STIME = "barter/src/statistic/time.rs"
+SHARPE = "barter/src/statistic/metric/sharpe.rs"
+SORTINO = "barter/src/statistic/metric/sortino.rs"
+CALMAR = "barter/src/statistic/metric/calmar.rs"
+ROR = "barter/src/statistic/metric/rate_of_return.rs"
 
 # (group, file, container, kind, name, options)     container: None = file top level, "mod x" or "impl X"
 MACHINES = [
@@ -109,7 +159,7 @@ MACHINES = [
     ("drawdown", DDMAX, "impl MaxDrawdownGenerator", "fn", "init", {}),
     ("drawdown", DDMAX, "impl MaxDrawdownGenerator", "fn", "update", {}),
     ("drawdown", DDMAX, "impl MaxDrawdownGenerator", "fn", "generate", {}),
-    ("drawdown", "barter/src/statistic/algorithm.rs", "mod welford_online", "fn", "calculate_mean", {}),
+    ("drawdown+dataset", ALGO, "mod welford_online", "fn", "calculate_mean", {}),
     ("drawdown", DDMEAN, None, "struct", "MeanDrawdown", {}),
     ("drawdown", DDMEAN, None, "struct", "MeanDrawdownGenerator", {}),
     ("drawdown", DDMEAN, "impl MeanDrawdownGenerator", "fn", "init", {}),
@@ -141,8 +191,98 @@ MACHINES = [
     ("connectivity", CONN, "impl Default for Health", "fn", "default", {}),
     ("connectivity", CONN, None, "struct", "ConnectivityState", {}),
     ("connectivity", CONN, "impl ConnectivityState", "fn", "all_healthy", {}),
+    # ---- second generated file (Machines2.lean) from here on
+    ("dataset", ALGO, None, "extern", "sqrt", {}),
+    ("dataset", ALGO, "mod welford_online", "fn", "calculate_recurrence_relation_m", {}),
+    ("dataset", ALGO, "mod welford_online", "fn", "calculate_population_variance", {}),
+    ("dataset", DISP, None, "struct", "Range", {}),
+    ("dataset", DISP, None, "derive_default", "Range", {}),
+    ("dataset", DISP, "impl Range", "fn", "init", {}),
+    ("dataset", DISP, "impl Range", "fn", "update", {}),
+    ("dataset", DISP, "impl Range", "fn", "range", {}),
+    ("dataset", DISP, None, "struct", "Dispersion", {}),
+    ("dataset", DISP, None, "derive_default", "Dispersion", {}),
+    ("dataset", DISP, "impl Dispersion", "fn", "update", {}),
+    ("dataset", DSET, None, "struct", "DataSetSummary", {}),
+    ("dataset", DSET, None, "derive_default", "DataSetSummary", {}),
+    ("dataset", DSET, "impl DataSetSummary", "fn", "update", {}),
+    ("pnl_returns", PSN, None, "fn", "calculate_pnl_return", {}),
+    ("pnl_returns", PNL, None, "struct", "PnLReturns", {}),
+    ("pnl_returns", PNL, None, "derive_default", "PnLReturns", {}),
+    ("pnl_returns", PNL, "impl PnLReturns", "fn", "update", {}),
+    ("pnl_returns", "barter/src/lib.rs", None, "derive_new", "Timed", {}),
+    ("pnl_returns", DD, None, "derive_default", "DrawdownGenerator", {}),
+    ("pnl_returns", DDMEAN, None, "derive_default", "MeanDrawdownGenerator", {}),
+    ("pnl_returns", DDMAX, None, "derive_default", "MaxDrawdownGenerator", {}),
+    ("pnl_returns", INSTR, None, "struct", "TearSheetGenerator", {}),
+    ("pnl_returns", INSTR, "impl TearSheetGenerator", "fn", "init", {}),
+    ("pnl_returns", INSTR, "impl TearSheetGenerator", "fn", "update_from_position", {}),
+    ("registers", BAL, None, "struct", "Balance", {}),
+    ("registers", BAL, None, "struct", "AssetBalance", {}),
+    ("registers", SNAP, None, "struct", "Snapshot", {}),
+    ("registers", SNAP, "impl Snapshot", "fn", "value", {}),
+    ("registers", SUMASSET, None, "struct", "TearSheetAssetGenerator", {}),
+    ("registers", SUMASSET, None, "derive_default", "TearSheetAssetGenerator", {}),
+    ("registers", SUMASSET, "impl TearSheetAssetGenerator", "fn", "update_from_balance", {}),
+    ("registers", "barter-instrument/src/asset/mod.rs", None, "opaque", "Asset", {}),
+    ("registers", ASTATE, None, "struct", "AssetState", {}),
+    ("registers", ASTATE, "impl AssetState", "fn", "update_from_balance", {}),
+    ("registers", BOOKS, None, "struct", "Level", {}),
+    ("registers", BOOKS, None, "fn", "volume_weighted_mid_price", {}),
+    ("registers", BOOKSUB, None, "struct", "OrderBookL1", {}),
+    ("registers", BOOKSUB, None, "derive_default", "OrderBookL1", {}),
+    ("registers", BOOKSUB, "impl OrderBookL1", "fn", "volume_weighed_mid_price", {}),
+    ("registers", "barter-data/src/subscription/trade.rs", None, "struct", "PublicTrade", {"fields_of_type": "f64"}),
+    ("registers", MEVENT, None, "enum", "DataKind", {"variants": ["Trade", "OrderBookL1"], "rest": True}),
+    ("registers", "barter-instrument/src/exchange.rs", None, "opaque", "ExchangeId", {"item": "enum"}),
+    ("registers", MEVENT, None, "struct", "MarketEvent", {}),
+    ("registers", IDATA, None, "struct", "DefaultInstrumentMarketData", {}),
+    ("registers", IDATA, None, "derive_default", "DefaultInstrumentMarketData", {}),
+    ("registers", IDATA, "impl InstrumentDataState for DefaultInstrumentMarketData", "fn", "price", {}),
+    ("registers", IDATA, "impl Processor<&MarketEvent<InstrumentKey, DataKind>> for DefaultInstrumentMarketData", "fn", "process", {}),
+    ("risk", RISK, None, "struct", "RiskApproved", {}),
+    ("risk", RISK, None, "derive_new", "RiskApproved", {}),
+    ("risk", RISK, "impl RiskApproved", "fn", "into_item", {}),
+    ("risk", RISK, None, "struct", "RiskRefused", {}),
+    ("risk", RISK, "impl RiskRefused<T, Reason>", "fn", "into_item", {}),
+    ("risk", RCHECK, None, "struct", "CheckHigherThan", {}),
+    ("risk", RCHECK, None, "derive_new", "CheckHigherThan", {}),
+    ("risk", RCHECK, None, "struct", "CheckFailHigherThan", {}),
+    ("risk", RCHECK, "impl RiskCheck for CheckHigherThan", "fn", "check", {}),
+    ("risk", RUTIL, None, "fn", "calculate_quote_notional", {}),
+    ("risk", RUTIL, None, "fn", "calculate_abs_percent_difference", {}),
+    ("risk", RUTIL, None, "fn", "calculate_delta", {}),
+    ("metrics", STIME, None, "trait", "TimeInterval", {}),
+    ("metrics", STIME, None, "struct", "Annual365", {}),
+    ("metrics", STIME, "impl TimeInterval for Annual365", "fn", "interval", {}),
+    ("metrics", STIME, None, "struct", "Annual252", {}),
+    ("metrics", STIME, "impl TimeInterval for Annual252", "fn", "interval", {}),
+    ("metrics", STIME, None, "struct", "Daily", {}),
+    ("metrics", STIME, "impl TimeInterval for Daily", "fn", "interval", {}),
+    ("metrics", SHARPE, None, "struct", "SharpeRatio", {}),
+    ("metrics", SHARPE, "impl SharpeRatio", "fn", "calculate", {}),
+    ("metrics", SHARPE, "impl SharpeRatio", "fn", "scale", {}),
+    ("metrics", SORTINO, None, "struct", "SortinoRatio", {}),
+    ("metrics", SORTINO, "impl SortinoRatio", "fn", "calculate", {}),
+    ("metrics", SORTINO, "impl SortinoRatio", "fn", "scale", {}),
+    ("metrics", CALMAR, None, "struct", "CalmarRatio", {}),
+    ("metrics", CALMAR, "impl CalmarRatio", "fn", "calculate", {}),
+    ("metrics", CALMAR, "impl CalmarRatio", "fn", "scale", {}),
+    ("metrics", ROR, None, "struct", "RateOfReturn", {}),
+    ("metrics", ROR, "impl RateOfReturn", "fn", "calculate", {}),
+    ("metrics", ROR, "impl RateOfReturn", "fn", "scale", {}),
+    ("clock", CLOCK, None, "trait", "TimeExchange", {}),
+    ("clock", CLOCK, None, "struct", "LiveClock", {}),
+    ("clock", CLOCK, "impl EngineClock for LiveClock", "fn", "time", {}),
+    ("clock", CLOCK, "impl Processor<&Event> for LiveClock", "fn", "process", {}),
+    ("clock", CLOCK, None, "struct", "HistoricalClockInner", {}),
+    ("clock", CLOCK, None, "struct", "HistoricalClock", {}),
+    ("clock", CLOCK, "impl HistoricalClock", "fn", "new", {}),
+    ("clock", CLOCK, "impl EngineClock for HistoricalClock", "fn", "time", {}),
+    ("clock", CLOCK, "impl Processor<&Event> for HistoricalClock", "fn", "process", {}),
 ]
-GROUPS = ["sequencer", "drawdown", "position_sm", "connectivity"]
+GROUPS = ["sequencer", "drawdown", "position_sm", "connectivity"]     # -> Generated/Machines.lean
+GROUPS2 = ["dataset", "pnl_returns", "registers", "risk", "metrics", "clock"]                                                 # -> Generated/Machines2.lean (imports the first)
 
 PRELUDE = """\
 /-! ## Fixed prelude: the meaning given to the Rust vocabulary of the accepted subset
@@ -175,6 +315,96 @@ def Decimal.MAX : Rat := 79228162514264337593543950335
 
 /-- `Decimal::MIN` = -(2^96 - 1). -/
 def Decimal.MIN : Rat := -79228162514264337593543950335
+"""
+
+AGREE2 = ["DataSetSM", "PnLReturnsSM", "RegistersSM", "RiskSM", "MetricsSM", "ClockSM"]
+
+PRELUDE2 = """\
+/-! ## Prelude, continued: vocabulary added for the groups of this file (trusted like the prelude of Machines.lean)
+
+* `x.is_sign_negative()` on a `Decimal` is `x < 0` (rust_decimal's negative zero is not modelled: a `Rat` has none).
+* `opt.expect("..")` / `opt.unwrap()` on an `Option` is `match opt with | some v => v | none => Rust.unreachable`:
+  the panic is the opaque value of Machines.lean, so an agreement theorem only holds if the `None` case is dead.
+* `#[derive(Default)]` on a struct (kind `derive_default`; the attribute is read from the source and must list
+  `Default`) is the value with every field at the default of its type: `Decimal` / `u64` / `i64` 0, `bool` false,
+  `Option` `None`, `Vec` empty, `DateTime<Utc>` the Unix epoch (0 ms), `TimeDelta` zero, a translated struct its
+  own translated `default`.
+* `#[derive(Constructor)]` (derive_more; kind `derive_new`) is `new(f1, .., fn)` taking the fields in declaration
+  order.
+* An `extern` item is a function of the source that is NOT translated (e.g. `statistic::algorithm::sqrt`, a Newton
+  iteration): only its signature is read; every generated definition that calls it, directly or through a
+  translated callee, takes it as an explicit first parameter of that function type, so agreement theorems
+  quantify over it (or over the functions satisfying its documented contract).
+* `f64` is the uninterpreted type `F64` below: its values are only stored, copied and handed to extern functions
+  (arithmetic and comparisons on it are rejected). `Decimal::from_f64(x)` (rust_decimal) is a built-in extern: the
+  explicit parameter `from_f64 : F64 → Option Rat`, about which nothing is assumed.
+* Option combinators: `o.as_ref()` is `o` (references are values); `o.map(|x| e)`, `o.is_none_or(|x| c)`,
+  `o.is_some_and(|x| c)`, `o.or(p)`, `o.unwrap_or(d)` are the evident `match`es on `o` (arguments are pure, so eager
+  and lazy evaluation agree); `place.replace(v)` writes `some v` and returns the old value.
+* `let Some(x) = &mut <place> else { .. };` binds `x` to the payload as a mutable local, and every later change of
+  `x` is written back to the place at once. For code the borrow checker accepts this is the meaning of the borrow:
+  while `x` is alive nothing else reads or writes the place, afterwards `x` is never read again.
+* A `match` without guards whose patterns bind variables is a Lean `match` with the alternatives in source order
+  (first match wins in both languages). An enum translated with option `rest` has the extra constructor `Other_`
+  standing for all its untranslated variants without their payloads (reachable only through `_` arms).
+* `Self::Name` in a trait impl is the `type Name = ..;` of that impl.
+* `Decimal::checked_mul` / `checked_add` / `checked_sub` (below) never return `None`: their only documented `None`
+  is overflow, and **overflow is not modelled** (as for every other `Decimal` operation); `checked_div` (Machines.lean)
+  is `None` exactly on a zero divisor.
+* `a <= b` (`<`, `>`, `>=`) on values of a type PARAMETER `T` is `T_ord.le a b` (`.lt`, `.gt`, `.ge`) of the explicit
+  parameter `T_ord : Rust.PartialOrd T` (below): the `PartialOrd` methods of whatever type is plugged in, about
+  which nothing is assumed — not even that the four are related (an impl may override each).
+* `f(a, b?)`: a `?` below the top of an expression, in a position that is always evaluated, is taken out in
+  evaluation order (`let t = b?; f(a, t)`); panics are values (`Rust.unreachable`), not effects, so a panic that Rust
+  would raise before the early return is not distinguished from the early return.
+-/
+
+/-! * A `trait` item is the record of its methods (`structure Name (Self : Type)`); a method call on a value of a
+  type parameter `T` is a field of the explicit parameter `T_Name : Name T`.
+* `d.num_seconds()` on a `TimeDelta` is `Int.tdiv d 1000` (whole seconds, truncated toward zero, as chrono does);
+  `TimeDelta::days(n)` / `hours` / `minutes` / `seconds` / `milliseconds` are `n * 86400000` / `3600000` / `60000` /
+  `1000` / `1` ms; `a.max(b)` on `TimeDelta` is the greater; `Decimal::from(<i64>)` is the inclusion `Int → Rat`.
+* `x.sqrt()` on a `Decimal` (rust_decimal's `MathematicalOps::sqrt`, NOT `statistic::algorithm::sqrt`) is a built-in
+  extern: the explicit parameter `decimal_sqrt : Rat → Option Rat`, about which nothing is assumed.
+* `a.cmp(&b)` on `Decimal` is `Decimal.cmp` into `std::cmp::Ordering` (below).
+* `Utc::now()` is an INPUT: the explicit parameter `utc_now : Int` (ms, like every `DateTime`) of the function that
+  reads it; a function may read it once only (two readings would be two different inputs: rejected), and functions
+  that take it cannot be called from translated code. `t.add(d)` on a `DateTime` is `t + d`; `x.abs()` on `i64` is
+  the absolute value (overflow at `i64::MIN` not modelled).
+* `Arc<T>` is `T` and `RwLock<T>` is `T`: **locks and shared ownership are transparent**, a single owner and a
+  single thread are modelled (clones of an `Arc` aliasing one cell, blocking and poisoning are not). `x.read()` is
+  the content; `let mut g = <place>.write();` binds `g` to the content as a mutable local whose every change is
+  written back to the place at once (as for `&mut`, see above); `drop(g);` has no effect.
+* In a `match` with guards an arm `x if c => ..` names the (pure) scrutinee `x`. -/
+
+/-- `std::cmp::Ordering`. -/
+inductive Ordering where
+  | Less
+  | Equal
+  | Greater
+  deriving DecidableEq, Repr
+
+/-- `Ord::cmp` of `Decimal` (a total order; rust_decimal compares values, not representations). -/
+def Decimal.cmp (x y : Rat) : Ordering := if x < y then Ordering.Less else if x = y then Ordering.Equal else Ordering.Greater
+
+/-- The four comparison methods of `PartialOrd` for a type parameter (see above). -/
+structure Rust.PartialOrd (T : Type) where
+  lt : T → T → Bool
+  le : T → T → Bool
+  gt : T → T → Bool
+  ge : T → T → Bool
+
+/-- `Decimal::checked_mul`: never `None` (its only `None` is overflow, which is not modelled). -/
+def Decimal.checked_mul (x y : Rat) : Option Rat := some (x * y)
+
+/-- `Decimal::checked_add`: never `None` (its only `None` is overflow, which is not modelled). -/
+def Decimal.checked_add (x y : Rat) : Option Rat := some (x + y)
+
+/-- `Decimal::checked_sub`: never `None` (its only `None` is overflow, which is not modelled). -/
+def Decimal.checked_sub (x y : Rat) : Option Rat := some (x - y)
+
+/-- `f64`, uninterpreted (see above); any injective coding of the bit patterns would do. -/
+abbrev F64 := Nat
 """
 
 
@@ -288,6 +518,56 @@ def find_item(text, container, kind, name):
             raise Reject(f"`{kind} {name}` has no body")
         return start, j + 1, gs, sty
     return start, match_brace(text, j) + 1, gs, sty
+
+
+def attributes_before(text, start):
+    """the `#[..]` attributes (comments are already blanked) and the visibility directly before the item that starts at
+    `start`: (offset where they begin, [attribute texts])"""
+    i = start
+    attrs = []
+    head = text[:i].rstrip()
+    m = re.search(r"pub(\s*\([^()]*\))?$", head)
+    if m:
+        head = head[:m.start()].rstrip()
+    while head.endswith("]"):
+        d, j = 0, len(head) - 1
+        while j >= 0:
+            if head[j] == "]":
+                d += 1
+            elif head[j] == "[":
+                d -= 1
+                if d == 0:
+                    break
+            j -= 1
+        if j < 1 or head[:j].rstrip()[-1:] != "#":
+            break
+        k = head[:j].rstrip().rfind("#")
+        attrs.append(head[k:])
+        head = head[:k].rstrip()
+    return len(head), list(reversed(attrs))
+
+
+def default_of(world, t):
+    """Lean text of `<T as Default>::default()` for the types whose default the prelude fixes"""
+    k = t[0]
+    if k in ("dec", "nat", "int", "time", "delta"):
+        return "0"
+    if k == "bool":
+        return "false"
+    if k == "opt":
+        return "none"
+    if k == "list":
+        return "[]"
+    if k == "unit":
+        return "()"
+    if k == "tuple":
+        return "(" + ", ".join(default_of(world, x) for x in t[1]) + ")"
+    if k in ("struct", "enum"):
+        fn = world.fns.get((t[1], "default"))
+        if fn is None or fn.params or fn.mode != "none" or fn.externs or (k == "struct" and t[2]):
+            raise Reject(f"default of `{ty_rust(t)}`: no translated `{t[1]}::default()`")
+        return fn.lean
+    raise Reject(f"default of a value of type {ty_rust(t)}")
 
 
 # ------------------------------------------------------------------------------------------ parser (AST)
@@ -471,8 +751,9 @@ class Parser:
             raise Reject(f"enum `{name}` has no variants")
         return name, variants
 
-    def fn(self):
-        """(name, generics, self mode, [(param, mut, type tokens)], ret type tokens | None, body block)"""
+    def fn(self, sig_only=False):
+        """(name, generics, self mode, [(param, mut, type tokens)], ret type tokens | None, body block)
+        sig_only: the body is not parsed (None): used for `extern` items, of which only the signature is read"""
         self.eat("fn")
         name = self.ident()
         gs = self.generics()
@@ -519,6 +800,10 @@ class Parser:
             # bounds of generic parameters only say which operators T has; skipped
             while self.peek() not in ("{", "<end>"):
                 self.next()
+        if sig_only:
+            if self.peek() != "{":
+                raise Reject(f"`{self.peek()}` where the function body should start")
+            return name, gs, mode, params, ret, None
         body = self.block()
         if self.kind() != "eof":
             raise Reject(f"`{self.peek()}` after the function body")
@@ -753,7 +1038,9 @@ class Parser:
         if v == "&":
             self.next()
             if self.peek() == "mut":
-                raise Reject("`&mut` borrow in an expression")
+                # accepted by the compiler only as `let Some(x) = &mut <place> else { .. };`
+                self.next()
+                return ("mutref", self.p_unary(ns))
             return ("un", "&", self.p_unary(ns))
         if v == "&&":
             raise Reject("`&&` borrow")
@@ -763,13 +1050,34 @@ class Parser:
         self.eat("(")
         out = []
         while self.peek() != ")":
-            out.append(self.expr())
+            if self.peek() in ("|", "||"):
+                out.append(self.closure())
+            else:
+                out.append(self.expr())
             if self.peek() == ",":
                 self.next()
             elif self.peek() != ")":
                 raise Reject(f"`{self.peek()}` in the argument list of `{what}`")
         self.eat(")")
         return out
+
+    def closure(self):
+        """`|x| e` / `|| e` as a call argument -> ("closure", param | None, body); accepted by the compiler only as the
+        argument of a few Option combinators"""
+        if self.next() == "||":
+            param = None
+        else:
+            if self.peek() in ("&", "mut", "(", "_") or self.kind() != "id":
+                raise Reject(f"closure parameter pattern starting `{self.peek()}` (only `|x|`)")
+            param = self.ident()
+            if self.peek() == ":":
+                raise Reject("typed closure parameter")
+            if self.peek() == ",":
+                raise Reject("closure with several parameters")
+            self.eat("|")
+        if self.peek() == "->":
+            raise Reject("closure with a return type")
+        return ("closure", param, self.expr())
 
     def p_postfix(self, ns):
         e = self.p_primary(ns)
@@ -790,7 +1098,11 @@ class Parser:
                     raise Reject("`.await`")
                 if self.peek() == "::":
                     raise Reject(f"turbofish on `.{name}`")
-                if self.peek() == "(":
+                if name == "expect" and self.peek() == "(" and self.peek(1) == '"' and self.peek(2) == '"' and self.peek(3) == ")":
+                    # `.expect("message")`: the message only labels the panic
+                    self.next(); self.next(); self.next(); self.next()
+                    e = ("mcall", e, "expect", [])
+                elif self.peek() == "(":
                     e = ("mcall", e, name, self.args("." + name))
                 else:
                     e = ("field", e, name)
@@ -942,9 +1254,10 @@ class Parser:
 # ------------------------------------------------------------------------------------------ types / world
 
 NAT, INT, DEC, BOOL, UNIT, TIME, DELTA, HOLE, INTLIT = ("nat",), ("int",), ("dec",), ("bool",), ("unit",), ("time",), ("delta",), ("hole",), ("intlit",)
-SCALAR_LEAN = {"nat": "Nat", "int": "Int", "dec": "Rat", "bool": "Bool", "unit": "Unit", "time": "Int", "delta": "Int"}
+F64 = ("f64",)     # uninterpreted: only stored, copied and handed to extern functions (no arithmetic, no comparison)
+SCALAR_LEAN = {"nat": "Nat", "int": "Int", "dec": "Rat", "bool": "Bool", "unit": "Unit", "time": "Int", "delta": "Int", "f64": "F64"}
 SCALAR_RUST = {"nat": "u64", "int": "i64", "dec": "Decimal", "bool": "bool", "unit": "()", "time": "DateTime<Utc>", "delta": "TimeDelta",
-               "hole": "_", "intlit": "{integer}"}
+               "hole": "_", "intlit": "{integer}", "f64": "f64"}
 
 
 def ty_lean(t):
@@ -961,6 +1274,8 @@ def ty_lean(t):
         return t[1]
     if k == "list":
         return f"List {ty_atom(t[1])}"
+    if k == "lock":
+        return ty_lean(t[1])          # `RwLock<T>` is transparent (PRELUDE2): a single owner is modelled
     if k == "tuple":
         return " × ".join(ty_atom(a) for a in t[1])
     raise Reject(f"type {ty_rust(t)} cannot be written in Lean (not determined)")
@@ -985,13 +1300,15 @@ def ty_rust(t):
         return "(" + ", ".join(ty_rust(a) for a in t[1]) + ")"
     if k == "list":
         return f"Vec<{ty_rust(t[1])}>"
+    if k == "lock":
+        return f"RwLock<{ty_rust(t[1])}>"
     return t[1]
 
 
 def has_hole(t):
     if t in (HOLE, INTLIT):
         return True
-    if t[0] in ("opt", "list"):
+    if t[0] in ("opt", "list", "lock"):
         return has_hole(t[1])
     if t[0] == "res":
         return has_hole(t[1]) or has_hole(t[2])
@@ -1016,7 +1333,7 @@ def unify(a, b):
         return a if a in (NAT, INT) else None
     if a[0] != b[0]:
         return None
-    if a[0] in ("opt", "list"):
+    if a[0] in ("opt", "list", "lock"):
         u = unify(a[1], b[1])
         return (a[0], u) if u else None
     if a[0] == "res":
@@ -1034,7 +1351,7 @@ def unify(a, b):
 def subst(t, m):
     if t[0] == "tvar":
         return m.get(t[1], t)
-    if t[0] in ("opt", "list"):
+    if t[0] in ("opt", "list", "lock"):
         return (t[0], subst(t[1], m))
     if t[0] == "res":
         return ("res", subst(t[1], m), subst(t[2], m))
@@ -1065,7 +1382,7 @@ def match_ty(pat, actual, m):
         return pat in (NAT, INT)
     if pat[0] != actual[0]:
         return False
-    if pat[0] in ("opt", "list"):
+    if pat[0] in ("opt", "list", "lock"):
         return match_ty(pat[1], actual[1], m)
     if pat[0] == "res":
         return match_ty(pat[1], actual[1], m) and match_ty(pat[2], actual[2], m)
@@ -1081,7 +1398,7 @@ def tvars_of(t, acc=None):
     if t[0] == "tvar":
         if t[1] not in acc:
             acc.append(t[1])
-    elif t[0] in ("opt", "list"):
+    elif t[0] in ("opt", "list", "lock"):
         tvars_of(t[1], acc)
     elif t[0] == "res":
         tvars_of(t[1], acc); tvars_of(t[2], acc)
@@ -1106,8 +1423,9 @@ class Struct:
 
 
 class Enum:
-    def __init__(self, name, variants, dropped):
+    def __init__(self, name, variants, dropped, rest=False):
         self.name, self.variants, self.dropped = name, variants, dropped   # variants: [(v, shape, [(f, ty)])]
+        self.rest = rest      # the dropped variants are represented by the one payload-free constructor `Other_`
 
     def variant(self, v):
         for x in self.variants:
@@ -1117,8 +1435,9 @@ class Enum:
 
 
 class Fn:
-    def __init__(self, lean, mode, self_ty, params, ret, tvars=()):
+    def __init__(self, lean, mode, self_ty, params, ret, tvars=(), externs=()):
         self.lean, self.mode, self.self_ty, self.params, self.ret, self.tvars = lean, mode, self_ty, params, ret, list(tvars)
+        self.externs = list(externs)      # names of the `extern` functions it takes as leading explicit parameters
 
     def instance(self, recv_ty, arg_tys, shown):
         """(param types, ret type) with the fn's type variables replaced by what the call site determines"""
@@ -1145,13 +1464,22 @@ class World:
         self.instances = {}       # (container, name, type) -> Fn
         self.pending = []         # Lean text of instances generated while compiling the current item
         self.lean_names = set()
+        self.externs = {}         # name -> (param types, ret type, Lean function type): untranslated fns = parameters
+        self.externs["from_f64"] = ([F64], ("opt", DEC), "F64 → Option Rat")     # built in: `Decimal::from_f64`
+        self.traits = {}          # translated traits: name -> {method: ([param types], ret type)}  (`Self` is ("tvar", "Self"))
+        self.enums["Ordering"] = Enum("Ordering", [("Less", "unit", []), ("Equal", "unit", []), ("Greater", "unit", [])], [])
+        self.lean_names.add("Ordering")     # `std::cmp::Ordering`: defined in PRELUDE2
+        self.externs["decimal_sqrt"] = ([DEC], ("opt", DEC), "Rat → Option Rat")   # built in: `Decimal::sqrt` (MathematicalOps)
+        self.externs["utc_now"] = ([], TIME, "Int")                                 # built in: the one reading of `Utc::now()`
+        self.tvar_ops = set()     # externs of the form `T_ord`: PartialOrd methods of a type PARAMETER (not passed on by callers)
 
 
 class TypeResolver:
     """resolves a token list to an internal type"""
 
-    def __init__(self, world, self_ty=None, tvars=()):
+    def __init__(self, world, self_ty=None, tvars=(), assoc=None):
         self.w, self.self_ty, self.tvars = world, self_ty, set(tvars)
+        self.assoc = assoc or {}      # associated types of the enclosing trait impl: name -> type tokens (`Self::Name`)
 
     def resolve(self, toks):
         self.t, self.i = list(toks) + ["<eot>"], 0
@@ -1190,6 +1518,11 @@ class TypeResolver:
             return ts[0] if len(ts) == 1 else ("tuple", tuple(ts))
         if not re.fullmatch(r"[A-Za-z_]\w*", v):
             raise Reject(f"type starting with `{v}`")
+        if v == "Self" and self.t[self.i] == "::" and self.t[self.i + 1] in self.assoc:
+            # `Self::Name` with `type Name = ..;` in the same trait impl
+            toks = self.assoc[self.t[self.i + 1]]
+            self.i += 2
+            return TypeResolver(self.w, self.self_ty, self.tvars).resolve(toks)
         # a path: keep the last segment
         while self.t[self.i] == "::":
             v = self.t[self.i + 1]
@@ -1204,7 +1537,7 @@ class TypeResolver:
                 elif self.t[self.i] != ">":
                     raise Reject(f"type arguments of `{v}`")
             self.i += 1
-        simple = {"u64": NAT, "i64": INT, "Decimal": DEC, "bool": BOOL, "TimeDelta": DELTA}
+        simple = {"u64": NAT, "i64": INT, "Decimal": DEC, "bool": BOOL, "TimeDelta": DELTA, "f64": F64}
         if v in simple and not args:
             return simple[v]
         if v == "DateTime" and len(args) == 1 and args[0] == ("enum", "Utc"):
@@ -1219,6 +1552,10 @@ class TypeResolver:
             return ("opt", args[0])
         if v == "Vec" and len(args) == 1:
             return ("list", args[0])
+        if v == "Arc" and len(args) == 1:
+            return args[0]                 # shared ownership is transparent: clones aliasing one cell are not modelled
+        if v == "RwLock" and len(args) == 1:
+            return ("lock", args[0])
         if v in self.w.opaque and not args:
             return ("opaque", v)
         if v == "Result" and len(args) == 2:
@@ -1242,8 +1579,9 @@ class V:
 
 
 class Var:
-    def __init__(self, ty, mut, lean):
+    def __init__(self, ty, mut, lean, alias=None):
         self.ty, self.mut, self.lean = ty, mut, lean
+        self.alias = alias       # (root, fields): the local is the payload of `&mut <root.fields>` (an Option place), see c_let
 
 
 def atom(s):
@@ -1264,6 +1602,7 @@ def atom(s):
 
 # ------------------------------------------------------------------------------------------ compiler
 
+TIMEDELTA_MS = {"days": 86400000, "hours": 3600000, "minutes": 60000, "seconds": 1000, "milliseconds": 1}
 ARITH = (DEC, INT, NAT, DELTA, INTLIT)
 ORDERED = (DEC, INT, NAT, DELTA, TIME, INTLIT)
 CMPSYM = {"==": "=", "!=": "≠", "<": "<", "<=": "≤", ">": ">", ">=": "≥"}
@@ -1275,6 +1614,7 @@ class Compiler:
         self.used = set(idents) | {"self"}
         self.tr = resolver
         self.globs = []          # enums whose variants are in scope through `use Enum::*;`
+        self.externs = []        # extern functions this definition needs (directly or through a callee), in order
 
     def fresh(self, base):
         n = 1
@@ -1284,6 +1624,18 @@ class Compiler:
         return f"{base}_{n}"
 
     # ---- small helpers
+    def need_extern(self, x):
+        if x not in self.externs:
+            self.externs.append(x)
+
+    def fname(self, fn):
+        """Lean head of a call of the translated fn: its name followed by the extern functions it is parameterised by"""
+        for x in fn.externs:
+            if x in self.w.tvar_ops:
+                raise Reject(f"call of `{fn.lean}`, which is parameterised by the ordering of a type parameter (`{x}`)")
+            self.need_extern(x)
+        return " ".join([fn.lean] + list(fn.externs))
+
     @staticmethod
     def val(v):
         return f"(decide {v.text})" if v.ty == BOOL and v.prop else v.text
@@ -1306,6 +1658,8 @@ class Compiler:
     def bind(self, name, ty, mut, env):
         """new binder: fresh Lean name when the Rust name is already in scope (so that code inlined after a nested
         block can never be captured)"""
+        if name in self.w.externs:
+            raise Reject(f"local `{name}` shadows the extern function `{name}`")
         lean = lean_id(name) if name not in env and name not in LEAN_CLASH else self.fresh(name)
         env = dict(env)
         env[name] = Var(ty, mut, lean)
@@ -1386,8 +1740,8 @@ class Compiler:
             conds = self.chain_of(e, env, ind)
             pad = "  " * ind
             vals, u = [], expect
-            for c, body in conds:
-                b = self.pure_block(body, env, ind + 1, u)
+            for c, body, env_arm in conds:
+                b = self.pure_block(body, env_arm, ind + 1, u)
                 u2 = unify(u, b.ty) if u else b.ty
                 if u2 is None:
                     raise Reject("match arms of different types")
@@ -1418,9 +1772,13 @@ class Compiler:
                     raise Reject("match arms of different types")
                 u = u2
                 out.append(f"{pad}| {pat} =>\n{pad}    {self.val(b)}")
-            return V(f"(match {s.text} with\n" + "\n".join(out) + ")", u)
+            return V(f"(match {self.val(s)} with\n" + "\n".join(out) + ")", u)
         if k == "block":
             return self.pure_block(e, env, ind, expect)
+        if k == "closure":
+            raise Reject("closure (accepted only as the argument of Option::{map, is_none_or, is_some_and})")
+        if k == "mutref":
+            raise Reject("`&mut` borrow (accepted only as `let Some(x) = &mut <place> else { .. };`)")
         if k == "try":
             raise Reject("`?` inside a larger expression (only as a whole initialiser / statement / tail)")
         if k == "return":
@@ -1509,9 +1867,42 @@ class Compiler:
             return V(f"(Except.error {atom(self.val(a))})", ("res", HOLE, a.ty))
         if segs[-2:] == ["Decimal", "from"]:
             a = self.cx(args[0], env, ind) if len(args) == 1 else None
+            if a is not None and a.ty == INT:
+                return V(f"(({a.text} : Int) : Rat)", DEC)
             if a is None or a.ty not in (NAT, INTLIT):
-                raise Reject("`Decimal::from(..)` of anything but one u64 value")
+                raise Reject("`Decimal::from(..)` of anything but one u64 / i64 value")
             return V(f"(({a.text} : Nat) : Rat)", DEC)
+        if len(segs) >= 2 and segs[-2] == "TimeDelta" and segs[-1] in TIMEDELTA_MS:
+            if len(args) != 1:
+                raise Reject(f"`{shown}` arguments")
+            a = self.cx(args[0], env, ind, INT)
+            if a.ty == INTLIT:
+                a.ty = INT
+            if a.ty != INT:
+                raise Reject(f"`{shown}` of a value of type {ty_rust(a.ty)}")
+            return V(f"({atom(a.text)} * {TIMEDELTA_MS[segs[-1]]})", DELTA)
+        if segs[-2:] == ["Arc", "new"] and len(args) == 1:
+            return self.cx(args[0], env, ind, expect)
+        if segs[-2:] == ["RwLock", "new"] and len(args) == 1:
+            a = self.cx(args[0], env, ind, expect[1] if expect and expect[0] == "lock" else None)
+            return V(a.text, ("lock", a.ty), a.prop)
+        if segs[-2:] == ["Utc", "now"] and not args:
+            # the wall clock is an INPUT: the explicit parameter `utc_now` (one reading per function: compile_fn rejects
+            # a body that calls it twice; functions that take it are not callable from translated code)
+            if "utc_now" in env:
+                raise Reject("local `utc_now` shadows the wall-clock parameter")
+            self.w.tvar_ops.add("utc_now")
+            self.need_extern("utc_now")
+            return V("utc_now", TIME)
+        if segs[-2:] == ["Decimal", "from_f64"]:
+            # rust_decimal's conversion is not modelled: an explicit parameter `from_f64 : F64 -> Option Rat` (PRELUDE2)
+            if len(args) != 1:
+                raise Reject("`Decimal::from_f64` arguments")
+            if "from_f64" in env:
+                raise Reject("local `from_f64` shadows the extern function `Decimal::from_f64`")
+            a = self.cx(args[0], env, ind, F64)
+            self.need_extern("from_f64")
+            return V(f"(from_f64 {atom(a.text)})", ("opt", DEC))
         if segs[-2:] in (["Vec", "new"], ["Vec", "with_capacity"]):
             if segs[-1] == "with_capacity":
                 if len(args) != 1:
@@ -1549,10 +1940,19 @@ class Compiler:
             if fn.mode != "none":
                 raise Reject(f"method `{shown}` called through a path")
             vs, ret = self.call_args(fn, None, args, env, ind, shown, expect)
-            return V("(" + " ".join([fn.lean] + [atom(self.val(v)) for v in vs]) + ")", ret)
+            return V("(" + " ".join([self.fname(fn)] + [atom(self.val(v)) for v in vs]) + ")", ret)
+        elif key[1] in self.w.externs and len(segs) == 1:
+            ptys, ret, _ = self.w.externs[name]
+            if len(args) != len(ptys):
+                raise Reject(f"call of `{shown}` with {len(args)} arguments")
+            if name in env:
+                raise Reject(f"local `{name}` shadows the extern function `{name}`")
+            vs = [self.cx(a, env, ind, t) for a, t in zip(args, ptys)]
+            self.need_extern(name)
+            return V("(" + " ".join([lean_id(name)] + [atom(self.val(v)) for v in vs]) + ")", ret)
         else:
             raise Reject(f"call of `{shown}`, which is not a translated function" + (" (it was rejected above)" if key in self.w.failed else ""))
-        return V("(" + " ".join([fn.lean] + [atom(self.val(v)) for v in vs]) + ")", fn.ret)
+        return V("(" + " ".join([self.fname(fn)] + [atom(self.val(v)) for v in vs]) + ")", fn.ret)
 
     def call_args(self, fn, recv_ty, args, env, ind, shown, expect=None):
         """compiled arguments and the result type of a call of a translated fn (type variables of the callee are
@@ -1665,9 +2065,49 @@ class Compiler:
             if fn.mode not in ("ref", "own", "ownmut"):
                 raise Reject(f"`.{name}(..)`: `{t[1]}::{name}` takes no `self`")
             vs, ret = self.call_args(fn, t, args, env, ind, f".{name}(..)", expect)
-            return V("(" + " ".join([fn.lean, atom(r.text)] + [atom(self.val(v)) for v in vs]) + ")", ret)
+            return V("(" + " ".join([self.fname(fn), atom(r.text)] + [atom(self.val(v)) for v in vs]) + ")", ret)
         if t[0] == "struct" and (t[1], name) in self.w.failed:
             raise Reject(f"call of `{t[1]}::{name}`, which was rejected above")
+        if t[0] == "tvar" and not (name == "clone" and not args):
+            cands = [tn for tn, ms in self.w.traits.items() if name in ms]
+            if len(cands) != 1:
+                raise Reject(f"method `.{name}(..)` on a value of the type parameter `{t[1]}`: "
+                             + ("no translated trait has it" if not cands else "several translated traits have it"))
+            ptys, rt = self.w.traits[cands[0]][name]
+            if len(args) != len(ptys):
+                raise Reject(f"`.{name}(..)` with {len(args)} arguments")
+            sub = {"Self": t}
+            vs = [self.cx(a, env, ind, subst(pt, sub)) for a, pt in zip(args, ptys)]
+            x = f"{t[1]}_{cands[0]}"
+            if x in env:
+                raise Reject(f"local `{x}` shadows the trait parameter `{x}`")
+            self.w.externs[x] = ([], UNIT, f"{cands[0]} {t[1]}")
+            self.w.tvar_ops.add(x)
+            self.need_extern(x)
+            return V("(" + " ".join([f"{x}.{lean_id(name)}", atom(r.text)] + [atom(self.val(v)) for v in vs]) + ")", subst(rt, sub))
+        if t[0] == "lock" and name == "read" and not args:
+            return V(r.text, t[1])          # the read guard is the value (the lock is transparent)
+        if t[0] == "lock" and name == "write" and not args:
+            raise Reject("`.write()` other than `let mut guard = <place>.write();` on a field path of `&mut self`")
+        if t == TIME and name == "add" and len(args) == 1:
+            a = self.cx(args[0], env, ind, DELTA)
+            return V(f"({r.text} + {a.text})", TIME)
+        if t == INT and name == "abs" and not args:
+            return V(f"(if {r.text} < 0 then -{atom(r.text)} else {r.text})", INT)
+        if t == DEC and name == "cmp" and len(args) == 1:
+            a = self.cx(args[0], env, ind, DEC)
+            return V(f"(Decimal.cmp {atom(r.text)} {atom(a.text)})", ("enum", "Ordering"))
+        if t == DEC and name == "sqrt" and not args:
+            # rust_decimal's MathematicalOps::sqrt is not modelled: the explicit parameter `decimal_sqrt` (PRELUDE2)
+            if "decimal_sqrt" in env:
+                raise Reject("local `decimal_sqrt` shadows the extern function `Decimal::sqrt`")
+            self.need_extern("decimal_sqrt")
+            return V(f"(decimal_sqrt {atom(r.text)})", ("opt", DEC))
+        if t == DELTA and name == "num_seconds" and not args:
+            return V(f"(Int.tdiv {atom(r.text)} 1000)", INT)
+        if t == DELTA and name == "max" and len(args) == 1:
+            a = self.cx(args[0], env, ind, DELTA)
+            return V(f"(if {r.text} ≥ {a.text} then {r.text} else {a.text})", DELTA)
         if name == "clone" and not args:
             return r
         if t == DEC and name == "abs" and not args:
@@ -1677,11 +2117,46 @@ class Compiler:
         if t == DEC and name == "checked_div" and len(args) == 1:
             a = self.cx(args[0], env, ind, DEC)
             return V(f"(Decimal.checked_div {atom(r.text)} {atom(a.text)})", ("opt", DEC))
+        if t == DEC and name in ("checked_mul", "checked_add", "checked_sub") and len(args) == 1:
+            a = self.cx(args[0], env, ind, DEC)
+            return V(f"(Decimal.{name} {atom(r.text)} {atom(a.text)})", ("opt", DEC))
         if t == BOOL and name == "then_some" and len(args) == 1:
             a = self.cx(args[0], env, ind, expect[1] if expect and expect[0] == "opt" else None)
             return V(f"(if {self.prop(r)} then some {atom(self.val(a))} else none)", ("opt", a.ty))
         if t[0] == "opt" and name in ("is_some", "is_none") and not args:
             return V(f"({r.text} {'≠' if name == 'is_some' else '='} none)", BOOL, True)
+        if t[0] == "opt" and name == "as_ref" and not args:
+            return r                      # `&Option<T>` -> `Option<&T>`: references are values
+        if t[0] == "opt" and name in ("is_none_or", "is_some_and", "map") and len(args) == 1:
+            c = args[0]
+            if c[0] != "closure" or c[1] is None:
+                raise Reject(f"`.{name}(..)` with an argument that is not a closure `|x| ..`")
+            if has_hole(t[1]):
+                raise Reject(f"`.{name}(..)` on an Option of undetermined type")
+            x, env2 = self.bind(c[1], t[1], False, env)
+            if name == "map":
+                b = self.cx(c[2], env2, ind, expect[1] if expect and expect[0] == "opt" else None)
+                return V(f"(match {r.text} with | none => none | some {x} => some {atom(self.val(b))})", ("opt", b.ty))
+            b = self.cx(c[2], env2, ind, BOOL)
+            dflt = "true" if name == "is_none_or" else "false"
+            return V(f"(match {r.text} with | none => {dflt} | some {x} => {atom(self.val(b))})", BOOL)
+        if t[0] == "opt" and name == "or" and len(args) == 1:
+            a = self.cx(args[0], env, ind, t)
+            x = self.fresh("some")
+            return V(f"(match {r.text} with | some {x} => some {x} | none => {self.val(a)})", a.ty)
+        if t[0] == "opt" and name == "unwrap_or" and len(args) == 1:
+            a = self.cx(args[0], env, ind, t[1] if not has_hole(t[1]) else None)
+            x = self.fresh("some")
+            return V(f"(match {r.text} with | some {x} => {x} | none => {self.val(a)})", a.ty)
+        if t[0] == "opt" and name == "replace":
+            raise Reject("`.replace(..)` inside a larger expression (accepted only as a whole statement on a field of `&mut self`)")
+        if t[0] == "opt" and name in ("expect", "unwrap") and not args:
+            if has_hole(t[1]):
+                raise Reject(f"`.{name}()` on an Option of undetermined type")
+            x = self.fresh("some")
+            return V(f"(match {r.text} with | some {x} => {x} | none => Rust.unreachable)", t[1])
+        if t == DEC and name == "is_sign_negative" and not args:
+            return V(f"({r.text} < 0)", BOOL, True)
         if t[0] == "opt" and name == "take":
             raise Reject("`.take()` inside a larger expression (accepted only as a whole initialiser / `match` scrutinee on a field of `&mut self`)")
         if t == TIME and name == "signed_duration_since" and len(args) == 1:
@@ -1712,6 +2187,17 @@ class Compiler:
             return V(f"({self.prop(a)} {'∧' if op == '&&' else '∨'} {self.prop(b)})", BOOL, True)
         a = self.cx(x, env, ind)
         b = self.cx(y, env, ind, a.ty if a.ty in (NAT, INT) else None)
+        if op in CMPSYM and op not in ("==", "!=") and unify(a.ty, b.ty) is not None and unify(a.ty, b.ty)[0] == "tvar":
+            # `PartialOrd::{lt, le, gt, ge}` of a type parameter: the explicit parameter `T_ord : Rust.PartialOrd T`, a
+            # record of the four methods (unrelated to each other: an impl may override each of them)
+            t = unify(a.ty, b.ty)
+            x = f"{t[1]}_ord"
+            if x in env:
+                raise Reject(f"local `{x}` shadows the ordering parameter `{x}`")
+            self.w.externs[x] = ([t, t], BOOL, f"Rust.PartialOrd {t[1]}")
+            self.w.tvar_ops.add(x)
+            self.need_extern(x)
+            return V(f"({x}.{ {'<': 'lt', '<=': 'le', '>': 'gt', '>=': 'ge'}[op] } {atom(a.text)} {atom(b.text)})", BOOL)
         if op in CMPSYM:
             u = unify(a.ty, b.ty)
             ok = u in ORDERED or (op in ("==", "!=") and u is not None and u[0] in ("enum", "tvar", "opaque"))
@@ -1736,6 +2222,10 @@ class Compiler:
         if k == "pbind":
             lean, env = self.bind(p[1], ty, p[2], env)
             return lean, env
+        if k == "pbool":
+            if ty != BOOL:
+                raise Reject(f"pattern `{p[1]}` on a value of type {ty_rust(ty)}")
+            return p[1], env
         if k == "ptuple":
             if ty[0] != "tuple" or len(ty[1]) != len(p[1]):
                 raise Reject(f"tuple pattern on a value of type {ty_rust(ty)}")
@@ -1806,9 +2296,60 @@ class Compiler:
             return " ".join([f"{en.name}.{var[0]}"] + out), env
         raise Reject(f"pattern `{k}` on a value of type {ty_rust(ty)}")
 
-    def is_chain(self, e):
+    def needs_order(self, e):
         """a `match` that needs the ordered reading: guards, or-patterns, a wildcard arm or a tuple scrutinee"""
         return e[1][0] == "tuple" or any(g is not None or len(ps) != 1 or ps[0][0] == "pwild" for ps, g, _ in e[2])
+
+    def binder_free(self, p):
+        """no binder and no constructor with arguments: the patterns the if-chain reading can test"""
+        k = p[0]
+        if k in ("pbind", "pctor", "pstruct"):
+            return False
+        if k == "ptuple":
+            return all(self.binder_free(q) for q in p[1])
+        return True
+
+    def is_ordered(self, e):
+        """an ordered `match` WITHOUT guards whose patterns bind variables / take constructors apart: it becomes a Lean
+        `match` with the alternatives in source order (Lean, like Rust, takes the first alternative that matches)"""
+        return (self.needs_order(e) and all(g is None for _, g, _ in e[2])
+                and any(not self.binder_free(p) for ps, _, _ in e[2] for p in ps))
+
+    def is_chain(self, e):
+        """an ordered `match` that becomes an if-chain (guards allowed, binder-free patterns only)"""
+        return self.needs_order(e) and not self.is_ordered(e)
+
+    def total_enums(self, ty):
+        """an ordered Lean match may only take apart enums whose every value is represented"""
+        if ty[0] == "enum":
+            en = self.w.enums[ty[1]]
+            if en.dropped and not en.rest:
+                raise Reject(f"match on `{en.name}`, which is translated only in part (and has no `rest` constructor)")
+        elif ty[0] == "opt":
+            self.total_enums(ty[1])
+        elif ty[0] == "tuple":
+            for t in ty[1]:
+                self.total_enums(t)
+
+    def ordered_arms(self, e, s, env):
+        """[(Lean alternative(s), env, body)] of a guard-free ordered match, in source order"""
+        self.total_enums(s.ty)
+        out = []
+        for pats, _, body in e[2]:
+            alts, env2 = [], env
+            for p in pats:
+                if len(pats) > 1 and not self.binder_free(p) and any(q[0] == "pbind" for q in self.subpatterns(p)):
+                    raise Reject("or-pattern `p | q` with binders")
+                pt, env2 = self.cpat(p, s.ty, env)
+                alts.append(pt)
+            out.append((" | ".join(alts), env2, body))
+        return out
+
+    def subpatterns(self, p):
+        yield p
+        subs = p[1] if p[0] == "ptuple" else p[2] if p[0] == "pctor" else [q for _, q in p[2]] if p[0] == "pstruct" else []
+        for q in subs:
+            yield from self.subpatterns(q)
 
     def pat_cond(self, p, v):
         """the condition under which the binder-free pattern p matches the value v (None = always)"""
@@ -1837,7 +2378,7 @@ class Compiler:
                      "(unit variants, tuples of them, `true`/`false`, `None`, `_`)")
 
     def chain_of(self, e, env, ind):
-        """[(condition | None, body)]: the arms in order; the last one must be unconditional"""
+        """[(condition | None, body, env of the arm)]: the arms in order; the last one must be unconditional"""
         sx = e[1]
         if self.effect(sx, env) or (sx[0] == "tuple" and any(self.effect(x, env) for x in sx[1])):
             raise Reject("state-changing scrutinee of a `match` with guards / or-patterns")
@@ -1846,16 +2387,27 @@ class Compiler:
             s.comps = [self.cx(x, env, ind + 1) for x in sx[1]]
         out = []
         for pats, guard, body in e[2]:
-            cs = [self.pat_cond(p, s) for p in pats]
+            env_arm = env
+            if len(pats) == 1 and pats[0][0] == "pbind":
+                # `x if guard => ..` / `x => ..`: x names the (pure) scrutinee itself
+                if has_hole(s.ty):
+                    raise Reject("binder arm on a scrutinee of undetermined type")
+                if pats[0][1] in self.w.externs:
+                    raise Reject(f"binder `{pats[0][1]}` shadows an extern function")
+                env_arm = dict(env)
+                env_arm[pats[0][1]] = Var(s.ty, False, atom(self.val(s)))
+                cs = [None]
+            else:
+                cs = [self.pat_cond(p, s) for p in pats]
             c = None if any(x is None for x in cs) else (cs[0] if len(cs) == 1 else "(" + " ∨ ".join(cs) + ")")
             if guard is not None:
-                g = self.prop(self.cx(guard, env, ind + 1))
+                g = self.prop(self.cx(guard, env_arm, ind + 1))
                 c = g if c is None else f"({c} ∧ {g})"
-            out.append((c, body))
+            out.append((c, body, env_arm))
         if out[-1][0] is not None:
             raise Reject("a `match` with guards / or-patterns / a tuple scrutinee must end in an unguarded `_` arm "
                          "(exhaustiveness is not decided by the translator)")
-        if any(c is None for c, _ in out[:-1]):
+        if any(c is None for c, _, _ in out[:-1]):
             raise Reject("unreachable arms after an unconditional arm")
         return out
 
@@ -1872,6 +2424,8 @@ class Compiler:
             if s.ty[0] == "opt" and p[0] == "ppath":
                 return ("arms", [("none", env, a), ("some _", env, b)])
             raise Reject("`if let` pattern other than `Some(<irrefutable>)` / `None`")
+        if self.is_ordered(e):
+            return ("arms", self.ordered_arms(e, s, env))
         arms = e[2]
         for pats, guard, _ in arms:
             if guard is not None:
@@ -1947,6 +2501,16 @@ class Compiler:
             return "{ " + text + " with " + lf + " := " + go(inner.text, inner.ty, fs[1:]) + " }"
         return go(env[root].lean, env[root].ty, fields)
 
+    def writeback(self, root, env, pad):
+        """after a change of the local `root`: if it is the payload of a `&mut` borrow of an Option place (c_let), the
+        place is updated too, so that the two never differ while the borrow is alive"""
+        al = env[root].alias
+        if not al:
+            return []
+        aroot, afields, wrap = al
+        new = self.set_place(aroot, afields, env, f"(some {env[root].lean})" if wrap == "some" else env[root].lean)
+        return [f"{pad}let {env[aroot].lean} : {ty_lean(env[aroot].ty)} := {new}"]
+
     def effect(self, e, env):
         """is `e` a state-changing head: a `&mut self` method call on an assignable place / `.take()` on one"""
         if e[0] != "mcall":
@@ -1962,6 +2526,8 @@ class Compiler:
             return ("take", lv, pl)
         if e[2] == "push" and len(e[3]) == 1 and pl.ty[0] == "list":
             return ("push", lv, pl)
+        if e[2] == "replace" and len(e[3]) == 1 and pl.ty[0] == "opt":
+            return ("replace", lv, pl)
         if pl.ty[0] == "struct" and (pl.ty[1], e[2]) in self.w.fns and self.w.fns[(pl.ty[1], e[2])].mode == "mut":
             return ("call", lv, pl)
         return None
@@ -1975,24 +2541,33 @@ class Compiler:
             t = self.fresh("taken")
             lines = [f"{pad}let {t} : {ty_lean(pl.ty)} := {pl.text}",
                      f"{pad}let {env[root].lean} : {ty_lean(env[root].ty)} := {self.set_place(root, fields, env, 'none')}"]
-            return lines, self.fit(V(t, pl.ty), expect)
+            return lines + self.writeback(root, env, pad), self.fit(V(t, pl.ty), expect)
+        if eff and eff[0] == "replace":
+            _, (root, fields), pl = eff
+            x = self.cx(e[3][0], env, ind, pl.ty[1] if not has_hole(pl.ty[1]) else None)
+            t = self.fresh("_replaced")
+            lines = [f"{pad}let {t} : {ty_lean(pl.ty)} := {pl.text}",
+                     f"{pad}let {env[root].lean} : {ty_lean(env[root].ty)} := {self.set_place(root, fields, env, '(some ' + atom(self.val(x)) + ')')}"]
+            return lines + self.writeback(root, env, pad), self.fit(V(t, pl.ty), expect)
         if eff and eff[0] == "push":
             _, (root, fields), pl = eff
             x = self.cx(e[3][0], env, ind, pl.ty[1] if not has_hole(pl.ty[1]) else None)
             new = f"({pl.text} ++ [{self.val(x)}])"
-            return [f"{pad}let {env[root].lean} : {ty_lean(env[root].ty)} := {self.set_place(root, fields, env, new)}"], self.fit(V("()", UNIT), expect)
+            return ([f"{pad}let {env[root].lean} : {ty_lean(env[root].ty)} := {self.set_place(root, fields, env, new)}"]
+                    + self.writeback(root, env, pad)), self.fit(V("()", UNIT), expect)
         if eff:
             _, (root, fields), pl = eff
             fn = self.w.fns[(pl.ty[1], e[2])]
             vs, ret = self.call_args(fn, pl.ty, e[3], env, ind, f".{e[2]}(..)")
-            fn = Fn(fn.lean, fn.mode, fn.self_ty, fn.params, ret)
-            call = " ".join([fn.lean, atom(pl.text)] + [atom(self.val(v)) for v in vs])
+            fn = Fn(fn.lean, fn.mode, fn.self_ty, fn.params, ret, (), fn.externs)
+            call = " ".join([self.fname(fn), atom(pl.text)] + [atom(self.val(v)) for v in vs])
             if fn.ret == UNIT:
-                return [f"{pad}let {env[root].lean} : {ty_lean(env[root].ty)} := {self.set_place(root, fields, env, '(' + call + ')')}"], self.fit(V("()", UNIT), expect)
+                return ([f"{pad}let {env[root].lean} : {ty_lean(env[root].ty)} := {self.set_place(root, fields, env, '(' + call + ')')}"]
+                        + self.writeback(root, env, pad)), self.fit(V("()", UNIT), expect)
             c = self.fresh("call")
             lines = [f"{pad}let {c} := {call}",
                      f"{pad}let {env[root].lean} : {ty_lean(env[root].ty)} := {self.set_place(root, fields, env, c + '.1')}"]
-            return lines, self.fit(V(f"{c}.2", fn.ret), expect)
+            return lines + self.writeback(root, env, pad), self.fit(V(f"{c}.2", fn.ret), expect)
         if e[0] in ("match", "iflet"):
             si = 2 if e[0] == "iflet" else 1
             if self.effect(e[si], env):
@@ -2030,13 +2605,70 @@ class Compiler:
                     f"{pad}| Except.ok {pat} =>\n" + inner(ind + 1) + ")")
         raise Reject(f"`?` on a value of type {ty_rust(v.ty)}")
 
+    def hoist(self, e):
+        """`inner?` below the top of an initialiser / statement / tail, in a position that is always evaluated (method
+        receiver and arguments, call arguments, operands other than `&&` `||`, fields, casts, literals), is taken out as
+        `let try_n = inner?;` in evaluation order.  Returns ([let statements], rewritten expression); a `?` inside a
+        branch, block or closure is left where it is (and rejected by the expression compiler)."""
+        lets = []
+
+        def go(x, top):
+            k = x[0]
+            if k == "try":
+                inner = go(x[1], False)
+                if top:
+                    return ("try", inner)
+                name = self.fresh("try")
+                lets.append(("let", ("pbind", name, False), None, ("try", inner), None))
+                return ("path", [name])
+            if k == "mcall":
+                r = go(x[1], False)
+                return ("mcall", r, x[2], [a if a[0] == "closure" else go(a, False) for a in x[3]])
+            if k == "call":
+                return ("call", x[1], [a if a[0] == "closure" else go(a, False) for a in x[2]])
+            if k == "field":
+                return ("field", go(x[1], False), x[2])
+            if k == "un":
+                return ("un", x[1], go(x[2], False))
+            if k == "cast":
+                return ("cast", go(x[1], False), x[2])
+            if k == "bin" and x[1] not in ("&&", "||"):
+                a = go(x[2], False)
+                return ("bin", x[1], a, go(x[3], False))
+            if k == "tuple":
+                return ("tuple", [go(a, False) for a in x[1]])
+            if k == "structlit":
+                return ("structlit", x[1], [(f, go(a, False)) for f, a in x[2]])
+            return x
+        return lets, go(e, True)
+
     def cs(self, items, i, tail, env, k, ind, expect):
         pad = "  " * ind
         if i == len(items):
             if tail is None:
                 return k(V("()", UNIT), env, ind)
+            lets, tail2 = self.hoist(tail)
+            if lets:
+                return self.cs(list(items) + lets, i, tail2, env, k, ind, expect)
             return self.ctail(tail, env, k, ind, expect)
         st = items[i]
+        if st[0] == "let":
+            lets, init2 = self.hoist(st[3])
+            if lets:
+                return self.cs(list(items[:i]) + lets + [("let", st[1], st[2], init2, st[4])] + list(items[i + 1:]), i, tail, env, k, ind, expect)
+        elif st[0] == "expr":
+            x = st[1]
+            lets = []
+            if x[0] == "assign":
+                lets, r2 = self.hoist(x[3])
+                x2 = ("assign", x[1], x[2], r2)
+            elif x[0] == "return" and x[1] is not None:
+                lets, r2 = self.hoist(x[1])
+                x2 = ("return", r2)
+            elif x[0] not in BLOCKLIKE and x[0] not in ("panic", "return"):
+                lets, x2 = self.hoist(x)
+            if lets:
+                return self.cs(list(items[:i]) + lets + [("expr", x2)] + list(items[i + 1:]), i, tail, env, k, ind, expect)
 
         def rest(env2, ind2):
             return self.cs(items, i + 1, tail, env2, k, ind2, expect)
@@ -2072,6 +2704,16 @@ class Compiler:
         if self.effect(e, env):
             lines, _ = self.head(e, env, ind)
             return "\n".join(lines + [rest(env, ind)])
+        if kind == "call" and e[1] == ["drop"] and len(e[2]) == 1 and e[2][0][0] == "path" and len(e[2][0][1]) == 1 and e[2][0][1][0] in env:
+            return rest(env, ind)          # `drop(local);` releases a guard / frees a value: no effect on the modelled state
+        if kind == "mcall":
+            lv = self.lvalue(e[1], env)
+            try:
+                pl = self.place(lv[0], lv[1], env) if lv else None
+            except Reject:
+                pl = None
+            if pl is not None and pl.ty[0] == "struct" and (pl.ty[1], e[2]) in self.w.failed:
+                raise Reject(f"call of `{pl.ty[1]}::{e[2]}`, which was rejected above")
         raise Reject("expression statement `..;` whose value is discarded" + (f" (method `.{e[2]}`)" if kind == "mcall" else ""))
 
     def c_return(self, e, env, ind):
@@ -2100,7 +2742,8 @@ class Compiler:
         else:
             v = self.cx(rhs, env, ind, cur.ty if cur.ty in (NAT, INT) else None)
             new = self.arith(op[0], cur, v).text
-        return f"{pad}let {env[root].lean} : {ty_lean(env[root].ty)} := {self.set_place(root, fields, env, new)}", env
+        return "\n".join([f"{pad}let {env[root].lean} : {ty_lean(env[root].ty)} := {self.set_place(root, fields, env, new)}"]
+                         + self.writeback(root, env, pad)), env
 
     def c_let(self, st, env, ind, rest, following=()):
         _, p, ann, init, els = st
@@ -2119,6 +2762,38 @@ class Compiler:
                 raise Reject("refutable `let` pattern")
             pt, env2 = self.cpat(p, inner_ty, env)
             return "\n".join(lines + [self.try_match(v, env, ind, atom(pt), lambda ind2: rest(env2, ind2))])
+        if init[0] == "mcall" and init[2] == "write" and not init[3] and els is None and p[0] == "pbind":
+            lv = self.lvalue(init[1], env)
+            pl = self.place(lv[0], lv[1], env) if lv and env[lv[0]].mut and not env[lv[0]].alias else None
+            if pl is not None and pl.ty[0] == "lock":
+                # `let mut guard = <place>.write();`  the write guard of a (transparent) RwLock: a mutable local holding the
+                # content, every change of which is written back to the place at once (same reasoning as for `&mut`)
+                if any(v.alias and v.alias[:2] == (lv[0], list(lv[1])) for v in env.values()):
+                    raise Reject("second write guard / `&mut` borrow of the same place")
+                lean, env2 = self.bind(p[1], pl.ty[1], True, env)
+                env2[p[1]].alias = (lv[0], list(lv[1]), "id")
+                return "\n".join([f"{pad}let {lean} : {ty_lean(pl.ty[1])} := {pl.text}", rest(env2, ind)])
+        if init[0] == "mutref":
+            # `let Some(x) = &mut <place> else { ..diverges.. };`  x is a mutable local holding the payload; every later
+            # change of x is written back to the place at once (`writeback`).  Sound for code rustc accepts: while the
+            # borrow x is alive nothing else can read or write the place, and after its last use x is never read again.
+            if els is None or not (p[0] == "pctor" and p[1] == ["Some"] and len(p[2]) == 1 and p[2][0][0] == "pbind"):
+                raise Reject("`&mut` borrow other than `let Some(x) = &mut <place> else { .. };`")
+            lv = self.lvalue(init[1], env)
+            if not lv or not env[lv[0]].mut or env[lv[0]].alias:
+                raise Reject("`&mut` borrow of something that is not a field path of a mutable variable")
+            pl = self.place(lv[0], lv[1], env)
+            if pl.ty[0] != "opt" or has_hole(pl.ty):
+                raise Reject(f"`let Some(x) = &mut <place>` on a place of type {ty_rust(pl.ty)}")
+            if any(v.alias and v.alias[:2] == (lv[0], list(lv[1])) for v in env.values()):
+                raise Reject("second `&mut` borrow of the same place")
+            lean, env2 = self.bind(p[2][0][1], pl.ty[1], True, env)
+            env2[p[2][0][1]].alias = (lv[0], list(lv[1]), "some")
+
+            def k_div2(_v, _env, _ind):
+                raise Reject("`let .. else` block that can fall through (it must end in `return`)")
+            other = self.cs(els[1], 0, els[2], env, k_div2, ind + 1, UNIT)
+            return f"{pad}(match {pl.text} with\n{pad}| none =>\n{other}\n{pad}| some {lean} =>\n" + rest(env2, ind + 1) + ")"
         lines, v = self.head(init, env, ind, annt)
         if els is not None:
             if self.irrefutable(p):
@@ -2163,11 +2838,11 @@ class Compiler:
         if kind == "match" and self.is_chain(e):
             conds = self.chain_of(e, env, ind)
             def go(j, ind2):
-                c, body = conds[j]
+                c, body, env_arm = conds[j]
                 pad2 = "  " * ind2
                 if c is None:
-                    return self.cs(body[1], 0, body[2], env, k, ind2, expect)
-                a = self.cs(body[1], 0, body[2], env, k, ind2 + 1, expect)
+                    return self.cs(body[1], 0, body[2], env_arm, k, ind2, expect)
+                a = self.cs(body[1], 0, body[2], env_arm, k, ind2 + 1, expect)
                 return f"{pad2}(if {c} then\n{a}\n{pad2}else\n" + go(j + 1, ind2 + 1) + ")"
             return go(0, ind)
         lines, s = self.head(e[2] if kind == "iflet" else e[1], env, ind)
@@ -2182,7 +2857,7 @@ class Compiler:
             # binders introduced by the pattern got fresh names whenever they would shadow one
             t = self.cs(body[1], 0, body[2], env2, k, ind + 1, expect) if body else k(V("()", UNIT), env, ind + 1)
             out.append(f"{pad}| {pt} =>\n{t}")
-        return "\n".join(lines + [f"{pad}(match {s.text} with\n" + "\n".join(out) + ")"])
+        return "\n".join(lines + [f"{pad}(match {self.val(s)} with\n" + "\n".join(out) + ")"])
 
     def ctail(self, e, env, k, ind, expect):
         kind = e[0]
@@ -2245,12 +2920,12 @@ class Compiler:
 
 # ------------------------------------------------------------------------------------------ driver
 
-def compile_fn(world, parsed, toks, cname, self_ty, lean_name, tmap=None, tvars=()):
+def compile_fn(world, parsed, toks, cname, self_ty, lean_name, tmap=None, tvars=(), assoc=None):
     """(Lean text of the definition, Fn); tvars = type parameters of the enclosing impl (kept generic)"""
     name, gs, mode, params, ret_toks, body = parsed
     if mode != "none" and (self_ty is None or self_ty[0] != "struct"):
         raise Reject("`self` receiver outside an impl of a translated struct")
-    tr = TypeResolver(world, self_ty, tvars)
+    tr = TypeResolver(world, self_ty, tvars, assoc)
     if tmap:
         base_resolve = tr.ty
 
@@ -2271,6 +2946,9 @@ def compile_fn(world, parsed, toks, cname, self_ty, lean_name, tmap=None, tvars=
         raise Reject("duplicate parameter name")
     ret = tr.resolve(ret_toks) if ret_toks else UNIT
     idents = {v for k, v in toks if k == "id"}
+    vals = [v for _, v in toks]
+    if sum(1 for j in range(len(vals) - 2) if vals[j:j + 3] == ["Utc", "::", "now"]) > 1:
+        raise Reject("`Utc::now()` is read more than once (the wall clock is ONE explicit parameter per function)")
     c = Compiler(world, self_ty, mode, ret, idents, tr)
     env = {}
     if mode != "none":
@@ -2284,6 +2962,10 @@ def compile_fn(world, parsed, toks, cname, self_ty, lean_name, tmap=None, tvars=
     for t in ([self_ty] if mode != "none" else []) + [t for _, _, t in ptys] + [ret]:
         tvars_of(t, used)
     sig = [f"{{{g} : Type}} [DecidableEq {g}]" for g in tvars if g in used]
+    for p, _, _ in ptys:
+        if p in world.externs:
+            raise Reject(f"parameter `{p}` shadows the extern function `{p}`")
+    sig += [f"({lean_id(x)} : {world.externs[x][2]})" for x in c.externs]
     if mode != "none":
         sig.append(f"(self : {ty_lean(self_ty)})")
     sig += [f"({lean_id(p)} : {ty_lean(t)})" for p, _, t in ptys]
@@ -2292,13 +2974,73 @@ def compile_fn(world, parsed, toks, cname, self_ty, lean_name, tmap=None, tvars=
     else:
         rt = ty_lean(ret)
     out = f"def {lean_name} " + " ".join(sig) + f" : {rt} :=\n{text}"
-    return out, Fn(lean_name, mode, self_ty, [(p, t) for p, _, t in ptys], ret, [g for g in tvars if g in used])
+    return out, Fn(lean_name, mode, self_ty, [(p, t) for p, _, t in ptys], ret, [g for g in tvars if g in used], c.externs)
+
+
+def translate_trait(world, text, raw, name):
+    """`trait Name .. { fn m(&self, ..) -> R; .. }` -> a Lean structure `Name (Self : Type)` with one field per method
+    whose signature is in the accepted types (the others are dropped and recorded; default bodies are ignored: an
+    impl may override them).  A method call on a value of a type PARAMETER is a field of this record."""
+    hits = [m for m in re.finditer(r"\btrait\s+%s\b" % re.escape(name), text) if depth_at(text, 0, m.start()) == 0]
+    if len(hits) != 1:
+        raise Reject(f"expected exactly one top-level `trait {name}`, found {len(hits)}")
+    a = hits[0].start()
+    j = a
+    while j < len(text) and text[j] not in "{;":
+        j += 1
+    if j >= len(text) or text[j] != "{":
+        raise Reject(f"`trait {name}` has no body")
+    b = match_brace(text, j) + 1
+    sha = hashlib.sha256(raw[a:b].encode()).hexdigest()[:16]
+    line = raw.count("\n", 0, a) + 1
+    if re.search(r"\btrait\s+%s\s*<" % re.escape(name), text[a:j]):
+        raise Reject(f"generic trait `{name}`")
+    body = text[j + 1:b - 1]
+    methods, dropped = {}, {}
+    tr = TypeResolver(world, ("tvar", "Self"), ())
+    for m in re.finditer(r"\bfn\s+(\w+)", body):
+        if depth_at(body, 0, m.start()) != 0:
+            continue
+        k = m.start()
+        e = k
+        while e < len(body) and body[e] not in "{;":
+            e += 1
+        sig = body[k:e] + " {"
+        try:
+            n, gs, mode, params, ret_toks, _ = Parser(tokenize(sig)).fn(sig_only=True)
+            if gs or mode != "ref":
+                raise Reject("generic method / receiver other than `&self`")
+            methods[n] = ([tr.resolve(tt) for _, _, tt in params], tr.resolve(ret_toks) if ret_toks else UNIT)
+        except Reject as ex:
+            dropped[m.group(1)] = str(ex)
+    if not methods:
+        raise Reject(f"trait `{name}` has no method with a translatable signature")
+    if name in world.lean_names:
+        raise Reject(f"name clash: `{name}` is generated twice")
+    world.lean_names.add(name)
+    world.traits[name] = methods
+    fields = "".join("  %s : %s\n" % (lean_id(n), " → ".join(["Self"] + [ty_atom(t) for t in pts] + [ty_lean(rt)]))
+                     for n, (pts, rt) in methods.items())
+    out = f"structure {name} (Self : Type) where\n{fields}".rstrip("\n")
+    note = ("-- a trait as the record of its methods: a call `x.m(..)` on a value of a type parameter `T` is `T_%s.m x ..` of an "
+            "explicit parameter `T_%s : %s T` (nothing is assumed about the implementation)" % (name, name, name))
+    if dropped:
+        note += "; not translated: " + ", ".join(f"{n} ({why})" for n, why in dropped.items())
+    return note + "\n" + out, sha, line
 
 
 def translate(world, text, raw, container, kind, name, opts):
     """returns (lean text of the item, sha of its source text, line)"""
-    a, b, igs, sty_toks = find_item(text, container, "struct" if kind == "opaque" else kind, name)
-    sha = hashlib.sha256(raw[a:b].encode()).hexdigest()[:16]
+    if kind == "trait":
+        return translate_trait(world, text, raw, name)
+    src_kind = {"opaque": opts.get("item", "struct"), "derive_default": "struct", "derive_new": "struct", "extern": "fn"}.get(kind, kind)
+    a, b, igs, sty_toks = find_item(text, container, src_kind, name)
+    attrs = []
+    if kind in ("derive_default", "derive_new"):
+        a0, attrs = attributes_before(text, a)
+        sha = hashlib.sha256(raw[a0:b].encode()).hexdigest()[:16]
+    else:
+        sha = hashlib.sha256(raw[a:b].encode()).hexdigest()[:16]
     line = raw.count("\n", 0, a) + 1
     toks = tokenize(text[a:b])
     p = Parser(toks)
@@ -2314,6 +3056,58 @@ def translate(world, text, raw, container, kind, name, opts):
             if self_ty[0] not in ("struct", "enum"):
                 raise Reject(f"`{container}`: impl of {ty_rust(self_ty)}")
             cname = self_ty[1]
+    if kind == "extern":
+        n, gs, mode, params, ret_toks, _ = p.fn(sig_only=True)
+        if gs or mode != "none" or container:
+            raise Reject("extern function with generics / a receiver / inside a container")
+        if n in world.externs or (None, n) in world.fns:
+            raise Reject(f"name clash: `{n}` is declared twice")
+        tr = TypeResolver(world, None, ())
+        ptys = [tr.resolve(tt) for _, _, tt in params]
+        ret = tr.resolve(ret_toks) if ret_toks else UNIT
+        if not ptys:
+            raise Reject("extern function without parameters")
+        lty = " → ".join([ty_atom(t) for t in ptys] + [ty_lean(ret)])
+        world.externs[n] = (ptys, ret, lty)
+        return (f"-- extern: NOT translated (only its signature `{n} : {lty}` is read); the definitions below that call it take it "
+                f"as an explicit parameter `({lean_id(n)} : {lty})`", sha, line)
+    if kind in ("derive_default", "derive_new"):
+        want = "Default" if kind == "derive_default" else "Constructor"
+        derived = []
+        for at in attrs:
+            m = re.fullmatch(r"#\[\s*derive\s*\((.*)\)\s*\]", at, re.S)
+            if m:
+                derived += [x.strip().split("::")[-1].strip() for x in m.group(1).split(",") if x.strip()]
+        if want not in derived:
+            raise Reject(f"struct `{name}` has no `#[derive(.. {want} ..)]` attribute")
+        st = world.structs.get(name)
+        if st is None:
+            raise Reject(f"struct `{name}` is not translated (list it before its derive item)")
+        if st.dropped:
+            raise Reject(f"`{want}` of `{name}`, whose fields are only partly translated")
+        sty = ("struct", name, tuple(("tvar", g) for g in st.generics))
+        fname = "default" if kind == "derive_default" else "new"
+        lname = f"{name}.{lean_id(fname)}"
+        if (name, fname) in world.fns or lname in world.lean_names:
+            raise Reject(f"name clash: `{lname}` is generated twice")
+        tsig = "".join(f"{{{g} : Type}} [DecidableEq {g}] " for g in st.generics)
+        if kind == "derive_default":
+            if st.generics:
+                raise Reject(f"derived `Default` of the generic struct `{name}`")
+            vals = [f"{lean_id(f)} := {default_of(world, t)}" for f, t in st.fields]
+            body = "{ " + ", ".join(vals) + " }" if vals else f"{name}.mk"
+            out = f"def {lname} : {ty_lean(sty)} :=\n  {body}"
+            world.fns[(name, fname)] = Fn(lname, "none", sty, [], sty)
+        else:
+            for f, _ in st.fields:
+                if f in LEAN_CLASH or f in world.externs:
+                    raise Reject(f"constructor parameter named `{f}`")
+            ps = " ".join(f"({lean_id(f)} : {ty_lean(t)})" for f, t in st.fields)
+            body = "{ " + ", ".join(f"{lean_id(f)} := {lean_id(f)}" for f, _ in st.fields) + " }" if st.fields else f"{name}.mk"
+            out = f"def {lname} {tsig}{ps} : {ty_lean(sty)} :=\n  {body}"
+            world.fns[(name, fname)] = Fn(lname, "none", sty, list(st.fields), sty, st.generics)
+        world.lean_names.add(lname)
+        return out, sha, line
     if kind == "opaque":
         if name in world.lean_names:
             raise Reject(f"name clash: `{name}` is generated twice")
@@ -2370,24 +3164,44 @@ def translate(world, text, raw, container, kind, name, opts):
             variants.append((v, shape, [(f, tr.resolve(tt)) for f, tt in fs]))
         if n in world.lean_names:
             raise Reject(f"name clash: `{n}` is generated twice")
+        rest = bool(opts.get("rest"))
+        if rest:
+            if not dropped or any(v == "Other_" for v, _, _ in raw_variants):
+                raise Reject(f"enum `{n}`: option `rest` needs dropped variants and no variant named `Other_`")
+            variants.append(("Other_", "unit", []))
         world.lean_names.add(n)
-        world.enums[n] = Enum(n, variants, dropped)
+        world.enums[n] = Enum(n, variants, dropped, rest)
         out = f"inductive {n} where\n" + "".join(
             f"  | {v}" + "".join(f" ({lean_id(f)} : {ty_lean(t)})" for f, t in fs) + "\n" for v, _, fs in variants) + "  deriving DecidableEq, Repr"
-        if dropped:
+        if dropped and rest:
+            out = (f"-- restricted to the variant(s) {', '.join(keep)}; the other variants ({', '.join(dropped)}) are represented, without their "
+                   f"payload, by the single constructor `Other_` (naming them in the source is rejected; only a `_` arm can reach them)\n") + out
+        elif dropped:
             out = (f"-- restricted to the variant(s) {', '.join(keep)}; not translated (constructing or matching them is rejected): "
                    + ", ".join(dropped) + "\n") + out
         return out, sha, line
     parsed = p.fn()
     n, gs = parsed[0], parsed[1]
+    assoc = {}
+    if container and container.startswith("impl") and " for " in container:
+        clo, chi, _, _ = find_container(text, container)
+        for m in re.finditer(r"\btype\s+(\w+)\s*=\s*([^;{}]+);", text[clo:chi]):
+            if depth_at(text, clo, clo + m.start()) == 0:
+                assoc[m.group(1)] = [v for _, v in tokenize(m.group(2))][:-1]
     lname = (cname + "." if cname else "") + lean_id(n)
     key = (cname, n)
     if key in world.fns or key in world.generic_fns or lname in world.lean_names:
         raise Reject(f"name clash: `{lname}` is generated twice")
     world.lean_names.add(lname)
+    if gs and parsed[2] != "none":
+        # type parameters of a METHOD stay parameters (like those of its impl); bounds in `where` only name operators
+        clash = [g for g in gs if g in igs or g in world.structs or g in world.enums or g in world.opaque]
+        if clash:
+            raise Reject(f"type parameter `{clash[0]}` of the method shadows another type")
+        out, fn = compile_fn(world, parsed, toks, cname, self_ty, lname, None, list(igs) + list(gs), assoc)
+        world.fns[key] = fn
+        return out, sha, line
     if gs:
-        if parsed[2] != "none":
-            raise Reject("generic method with a receiver")
         suffix = {DEC: "Decimal", INT: "i64", NAT: "u64"}
 
         def compile_instance(t, parsed=parsed, toks=toks, lname=lname):
@@ -2399,21 +3213,22 @@ def translate(world, text, raw, container, kind, name, opts):
         compile_fn(world, parsed, toks, cname, self_ty, lname + "_check", {gs[0]: DEC}, igs)
         world.generic_fns[key] = (parsed, lname, compile_instance)
         return (f"-- generic over `{gs[0]}`: instantiated below at the types it is called with", sha, line)
-    out, fn = compile_fn(world, parsed, toks, cname, self_ty, lname, None, igs)
+    out, fn = compile_fn(world, parsed, toks, cname, self_ty, lname, None, igs, assoc)
     world.fns[key] = fn
     return out, sha, line
 
 
 def main():
     argv = sys.argv[1:]
-    required = set(GROUPS)
+    all_groups = GROUPS + GROUPS2
+    required = set(all_groups)
     to_stdout = False
     while argv:
         a = argv.pop(0)
         if a == "--require":
             required = set(argv.pop(0).split(","))
-            if not required <= set(GROUPS):
-                sys.exit(f"rust2lean_sm: unknown group in --require (groups: {', '.join(GROUPS)})")
+            if not required <= set(all_groups):
+                sys.exit(f"rust2lean_sm: unknown group in --require (groups: {', '.join(all_groups)})")
         elif a == "--stdout":
             to_stdout = True
         elif a == "--list":
@@ -2424,9 +3239,13 @@ def main():
             sys.exit(__doc__)
     world = World()
     cache = {}
-    sections, header, errors, failed_groups = [], [], [], set()
+    # one (sections, header) pair per generated file; an item goes to the file of its FIRST group
+    sections, header = {1: [], 2: []}, {1: [], 2: []}
+    errors, failed_groups = [], set()
     cur = None
     for group, rel, container, kind, name, opts in MACHINES:
+        groups = group.split("+")
+        fno = 1 if groups[0] in GROUPS else 2
         shown = f"{rel} :: " + (f"{container} :: " if container else "") + f"{kind} {name}"
         world.pending = []
         try:
@@ -2442,51 +3261,72 @@ def main():
             if kind == "fn" and container:
                 base = re.sub(r"<.*", "", container.split(" for ")[-1].split()[-1])
                 world.failed.add((base, name))
-            errors.append((group, f"rust2lean_sm: REJECTED {shown}: {e}"))
-            failed_groups.add(group)
-            header.append(f"  {shown}: NOT TRANSLATED ({e})")
-            if (group, rel) != cur:
-                sections.append(f"\n/-! ## {rel} -/")
-                cur = (group, rel)
-            sections.append(f"\n-- NOT TRANSLATED: {kind} {name}: {e}")
+            if kind in ("derive_default", "derive_new"):
+                world.failed.add((name, "default" if kind == "derive_default" else "new"))
+            for g in groups:
+                errors.append((g, f"rust2lean_sm: REJECTED {shown}: {e}"))
+                failed_groups.add(g)
+            header[fno].append(f"  {shown}: NOT TRANSLATED ({e})")
+            if (groups[0], rel) != cur:
+                sections[fno].append(f"\n/-! ## {rel} -/")
+                cur = (groups[0], rel)
+            sections[fno].append(f"\n-- NOT TRANSLATED: {kind} {name}: {e}")
             continue
-        if (group, rel) != cur:
-            sections.append(f"\n/-! ## {rel} -/")
-            cur = (group, rel)
-        header.append(f"  {shown}  (line {line})  sha256[:16]={sha}")
+        if (groups[0], rel) != cur:
+            sections[fno].append(f"\n/-! ## {rel} -/")
+            cur = (groups[0], rel)
+        header[fno].append(f"  {shown}  (line {line})  sha256[:16]={sha}")
         where = (container + " :: " if container else "") + f"{kind} {name}"
         for inst in world.pending:
-            sections.append("\n" + inst)
-        if out.startswith("-- generic"):
-            sections.append(f"\n-- `{where}` ({rel}:{line}) {out[3:]}")
+            sections[fno].append("\n" + inst)
+        if out.startswith("-- generic") or out.startswith("-- extern"):
+            sections[fno].append(f"\n-- `{where}` ({rel}:{line}) {out[3:]}")
         else:
             lead = ""
             while out.startswith("-- "):
                 c, out = out.split("\n", 1)
                 lead += c + "\n"
-            sections.append(f"\n{lead}/-- generated from `{where}` ({rel}:{line}) -/\n{out}")
-    text = ("/-\nGENERATED FILE -- DO NOT EDIT.  Written by tools/rust2lean_sm.py from the Rust source on every run of\n"
-            "`./check` for the properties whose props/Cxx.py names it in PREBUILD; the committed copy is the output for\n"
-            "the pinned tree.  State machines: a `&mut self` method is a pure function returning the new state and the\n"
-            "result; the meaning of the scalar vocabulary is fixed in the prelude below.  The agreement with the\n"
-            "hand-written models is proved in Lemmas/KernelsAgree/{Sequencer,Drawdown,PositionSM,Connectivity}.lean.\n\n"
-            "Source items (file :: item, line, hash of the item's source text):\n"
-            + "\n".join(header) + "\n-/\nnamespace BarterModel.Generated.Machines\n\n" + PRELUDE + "\n".join(sections)
-            + "\n\nend BarterModel.Generated.Machines\n")
+            sections[fno].append(f"\n{lead}/-- generated from `{where}` ({rel}:{line}) -/\n{out}")
+    text1 = ("/-\nGENERATED FILE -- DO NOT EDIT.  Written by tools/rust2lean_sm.py from the Rust source on every run of\n"
+             "`./check` for the properties whose props/Cxx.py names it in PREBUILD; the committed copy is the output for\n"
+             "the pinned tree.  State machines: a `&mut self` method is a pure function returning the new state and the\n"
+             "result; the meaning of the scalar vocabulary is fixed in the prelude below.  The agreement with the\n"
+             "hand-written models is proved in Lemmas/KernelsAgree/{Sequencer,Drawdown,PositionSM,Connectivity}.lean.\n\n"
+             "Source items (file :: item, line, hash of the item's source text):\n"
+             + "\n".join(header[1]) + "\n-/\nnamespace BarterModel.Generated.Machines\n\n" + PRELUDE + "\n".join(sections[1])
+             + "\n\nend BarterModel.Generated.Machines\n")
+    text2 = ("import BarterModel.Generated.Machines\n"
+             "/-\nGENERATED FILE -- DO NOT EDIT.  Second output file of tools/rust2lean_sm.py (same namespace as, and importing,\n"
+             "Generated/Machines.lean, whose prelude and items it uses), rewritten from the Rust source on every run of\n"
+             "`./check` for the properties whose props/Cxx.py names a group of this file in PREBUILD; the committed copy is\n"
+             "the output for the pinned tree.  The agreement with the hand-written models is proved in\n"
+             "Lemmas/KernelsAgree/{" + ",".join(AGREE2) + "}.lean.\n\n"
+             "Source items (file :: item, line, hash of the item's source text):\n"
+             + "\n".join(header[2]) + "\n-/\nset_option linter.unusedVariables false   -- e.g. `&self` of a method of a unit struct\n"
+             "namespace BarterModel.Generated.Machines\n\n" + PRELUDE2 + "\n".join(sections[2])
+             + "\n\nend BarterModel.Generated.Machines\n")
     if to_stdout:
-        sys.stdout.write(text)
+        sys.stdout.write(text1)
+        sys.stdout.write(text2)
     else:
-        os.makedirs(os.path.dirname(OUT), exist_ok=True)
-        old = open(OUT, encoding="utf-8").read() if os.path.exists(OUT) else None
-        if old != text:
-            with open(OUT, "w", encoding="utf-8") as f:
-                f.write(text)
+        for path, text in ((OUT, text1), (OUT2, text2)):
+            os.makedirs(os.path.dirname(path), exist_ok=True)
+            old = open(path, encoding="utf-8").read() if os.path.exists(path) else None
+            if old != text:
+                tmp = path + ".tmp%d" % os.getpid()
+                with open(tmp, "w", encoding="utf-8") as f:
+                    f.write(text)
+                os.replace(tmp, path)
+    seen = set()
     for g, msg in errors:
-        print(msg + ("" if g in required else "   [group not required by this run: definition left out]"), file=sys.stderr)
+        line = msg + ("" if g in required else "   [group not required by this run: definition left out]")
+        if (msg, g in required) not in seen:
+            print(line, file=sys.stderr)
+        seen.add((msg, g in required))
     bad = failed_groups & required
-    n_ok = len(MACHINES) - len(errors)
-    print(f"rust2lean_sm: {n_ok}/{len(MACHINES)} items translated from {REPO} -> {os.path.relpath(OUT, VERIF)}"
-          + (f"; FAILED in required group(s): {', '.join(sorted(bad))}" if bad else ""))
+    n_bad = len({m for _, m in errors})
+    print(f"rust2lean_sm: {len(MACHINES) - n_bad}/{len(MACHINES)} items translated from {REPO} -> {os.path.relpath(OUT, VERIF)}, "
+          f"{os.path.relpath(OUT2, VERIF)}" + (f"; FAILED in required group(s): {', '.join(sorted(bad))}" if bad else ""))
     return 1 if bad else 0
 
 
